@@ -140,12 +140,12 @@ func haystack(e *rm.Entry) string {
 }
 
 type stats struct {
-	perHost   map[string]int
-	requests  int
-	traversed []string
-	carried   int // requests that carried at least one secret
-	tokenReqs int
-	redirects int
+	perHost    map[string]int
+	requests   int
+	traversed  []string
+	carried    int // requests that carried at least one secret
+	tokenReqs  int
+	redirects  int
 	challenges int
 }
 
@@ -282,6 +282,16 @@ func oracle(c *Case, res *runResult) ([]*evid.Violation, *stats) {
 		}
 		return false
 	}
+	// namedExactlySeq: the latest Seq (< e.Seq) at which host `by` named exactly this token endpoint, else -1
+	namedExactlySeq := func(by int, e *rm.Entry) int {
+		best := -1
+		for _, n := range named[by] {
+			if n.Host == e.Host && n.Seq < e.Seq && n.Path == e.Path && n.Seq > best {
+				best = n.Seq
+			}
+		}
+		return best
+	}
 	for _, e := range entries {
 		st.requests++
 		st.perHost[e.Host]++
@@ -367,30 +377,45 @@ func oracle(c *Case, res *runResult) ([]*evid.Violation, *stats) {
 				continue
 			}
 			chain := c.chainTargets(j)
-			if x >= 0 && chain[x] && seqBefore(challenged[x], e.Seq) {
+			attributed := false
+			// (1) a token endpoint request: the cause is the third host of the chain that named exactly
+			// this endpoint (host and path) most recently. Whether the receiving host also happens to be a
+			// chain host that challenged for itself (e.g. a registry that is a redirect target) is irrelevant.
+			if x >= 0 && g.cred && strings.HasPrefix(e.Path, "/token/") {
+				best, bestSeq := -1, -1
+				for y := 0; y < len(c.Hosts); y++ {
+					if y == j || !chain[y] {
+						continue
+					}
+					sq := namedExactlySeq(y, e)
+					if sq < 0 {
+						continue
+					}
+					// an upload-location host that named the endpoint wins over other namers (when both named
+					// the same realm the request cannot be told apart; the upload path is the one that is
+					// accepted behaviour), otherwise the most recent namer
+					up, bestUp := c.Hosts[y].Kind == "upload", best >= 0 && c.Hosts[best].Kind == "upload"
+					if best < 0 || (up && !bestUp) || (up == bestUp && sq > bestSeq) {
+						best, bestSeq = y, sq
+					}
+				}
+				if best >= 0 {
+					sig := sigThirdHost
+					if c.Hosts[best].Kind == "upload" {
+						sig = sigUploadHost
+					}
+					addV(evid.V(sig, "%s; this token endpoint was named by the challenge of host %d (%s), a third host in the request chain of registry %d, not by registry %d itself", what, best, c.role(best, j), j, j))
+					attributed = true
+				}
+			}
+			// (2) the receiving host is itself a third host of the chain and had challenged before
+			if !attributed && x >= 0 && chain[x] && seqBefore(challenged[x], e.Seq) {
 				sig := sigThirdHost
 				if c.Hosts[x].Kind == "upload" {
 					sig = sigUploadHost
 				}
 				addV(evid.V(sig, "%s; that host is a %s reached from registry %d because a server response pointed there, it had answered 401 with a challenge before", what, c.role(x, j), j))
-				continue
-			}
-			attributed := false
-			if x >= 0 && g.cred {
-				for y := 0; y < len(c.Hosts); y++ {
-					if y == j || !chain[y] {
-						continue
-					}
-					if namedExactly(y, e) {
-						sig := sigThirdHost
-						if c.Hosts[y].Kind == "upload" {
-							sig = sigUploadHost
-						}
-						addV(evid.V(sig, "%s; this token endpoint was named by the challenge of host %d (%s), a third host in the request chain of registry %d, not by registry %d itself", what, y, c.role(y, j), j, j))
-						attributed = true
-						break
-					}
-				}
+				attributed = true
 			}
 			if attributed {
 				continue
@@ -609,6 +634,63 @@ func caseClasses(c *Case, res *runResult, st *stats) []string {
 		for _, ch := range []ChallengeSpec{h.Auth.Ch, h.Auth.Alt} {
 			if ch.RealmScheme != "" {
 				add("realm-scheme-forced:" + ch.RealmScheme)
+			}
+		}
+	}
+	for _, f := range c.Faults {
+		k := f.Kind
+		if k == "status" {
+			k = fmt.Sprintf("status-%d", f.Status)
+			if f.RetryAfter != "" {
+				add("fault:retry-after")
+			}
+		}
+		add("fault:" + k)
+		if c.valid(f.Host) {
+			add("fault-on:" + c.role(f.Host, c.upstreamOf(f.Host)))
+			h := &c.Hosts[f.Host]
+			if h.Kind == "registry" && (len(h.Mirrors) > 0 || h.MirrorOf >= 0) {
+				add("fault-on:mirror-group-member")
+				// every member of the group requires auth and has its own configured credentials
+				all := true
+				for p := range c.Hosts {
+					if p == f.Host || c.sameMirrorGroup(f.Host, p) {
+						if !c.hasCreds(p) || c.Hosts[p].Auth.Ch.Kind == "none" {
+							all = false
+						}
+					}
+				}
+				if all {
+					add("fault-on:mirror-group-all-members-auth-with-own-creds")
+				}
+			}
+		}
+	}
+	// observed: a transient failure on one member of a mirror group directly followed by a 401 from
+	// another member for the same path (fail-over inside one logical request)
+	ents := res.w.m.Entries()
+	for k := 0; k+1 < len(ents); k++ {
+		a, b := ents[k], ents[k+1]
+		if a.Fault == "" || a.Host == b.Host || a.Path != b.Path {
+			continue
+		}
+		ia, oka := res.w.idx[a.Host]
+		ib, okb := res.w.idx[b.Host]
+		if !oka || !okb || !c.sameMirrorGroup(ia, ib) {
+			continue
+		}
+		transient := a.Fault == "reset-before" || a.Fault == "reset-after" || a.Fault == "truncate"
+		switch a.Status {
+		case 429, 408, 500, 502, 504:
+			transient = true
+		}
+		if transient {
+			add("observed:transient-failure-then-request-to-next-group-member")
+			if b.Status == 401 {
+				add("observed:transient-failure-then-401-from-next-group-member")
+				if c.hasCreds(ia) && c.hasCreds(ib) {
+					add("observed:transient-then-401-both-members-have-creds")
+				}
 			}
 		}
 	}
